@@ -41,6 +41,8 @@ type c15Diag struct {
 }
 
 var c15Globs = []string{
+	`\.github/workflows/*.yml`, // a backslash escapes any character, also an ordinary one
+	`.github/work\flows/**`,
 	".github/workflows/**/*.yml",
 	".github/workflows/a*.yml",
 	"**/b*.yml",
@@ -290,6 +292,10 @@ func (c15) Eval(c *Chooser, env *Env) *Outcome {
 	if cfg != "" && sib == "" && !looseFirst && !sibArg && mode != 5 && mode != 3 && c.Weighted("world.cfgviaflag", 1, 6) {
 		// the same configuration given with -config-file instead of lying in the repository
 		delete(disk.Files, root+"/.github/actionlint.yaml")
+		if c.Bool("world.decoycfg") {
+			// the repository has a configuration of its own as well: the file given on the command line counts
+			disk.Put(root+"/.github/actionlint.yaml", []byte("paths:\n  '**':\n    ignore: ['never-matches-anything-xyz']\n"))
+		}
 		disk.Put("/w/cfg/custom-actionlint.yaml", []byte(cfg))
 		cfgFlag = []string{"-config-file", "/w/cfg/custom-actionlint.yaml"}
 		o.probe("config_file_option", 1)
